@@ -1047,11 +1047,13 @@ def st_edit_fasta(tier):
     return gen()
 
 
-def _mapping_history(o, case, new_file, reread, put, view_items, label_value, bad_put=None):
+def _mapping_history(o, case, new_file, reread, put, view_items, label_value, bad_put=None, start_text=None):
     """Shared interpreter for FastaFile / FastqFile histories.
 
     new_file() -> empty object; reread(text) -> parsed object; put(f, key, value);
-    view_items(items) -> list of (key, comparable value); label_value(value) -> model value."""
+    view_items(items) -> list of (key, comparable value); label_value(value) -> model value.
+    start_text([(key, value), ...]) -> text or None: a text of the initial entries that biotite
+    did not write itself (other line wrapping); the history then starts from its parse."""
 
     def view(f):
         return view_items(f.items())
@@ -1059,10 +1061,12 @@ def _mapping_history(o, case, new_file, reread, put, view_items, label_value, ba
     pool = case["pool"]
     model = {}
     f = new_file()
+    raw = {}
     for pi, *val in case["init"]:
         h = pool[pi % len(pool)]
         put(f, h, val)
         model[h] = label_value(val)
+        raw[h] = val
     nontrivial = False
 
     def check(step):
@@ -1082,7 +1086,12 @@ def _mapping_history(o, case, new_file, reread, put, view_items, label_value, ba
             ok &= o.check_eq(text.strip(), "", "edit_text_equals_view", f"step {step}: text of the empty file")
         return ok
 
-    if case["parsed_start"] and model:
+    text0 = start_text([(h, raw[h]) for h in model]) if start_text is not None and model else None
+    if text0 is not None:
+        # the same entries, read from a text with its own line wrapping ("any line wrapping")
+        f = reread(text0)
+        o.label("foreign_wrapping_start")
+    elif case["parsed_start"] and model:
         f = reread(str(f))
         o.label("parsed_start")
     if not check("init"):
@@ -1209,6 +1218,9 @@ def st_edit_fastq(tier):
             "offset": offset,
             "score_type": draw(st.sampled_from(["list", "list", "int64", "int8"])),
             "cpl": draw(st.one_of(st.none(), st.integers(1, 8), st_cpl())),
+            # the text the history starts from: None = written by biotite, else [width of the
+            # sequence lines, width of the score lines] (None = one line), chosen independently
+            "start_wrap": draw(st.one_of(st.none(), st.lists(st.one_of(st.none(), st.integers(1, 8), st.integers(1, 30)), min_size=2, max_size=2))),
             "pool": pool,
             "init": init,
             "parsed_start": draw(st.booleans()),
@@ -1240,6 +1252,20 @@ def run_edit_fastq(case):
         else:
             f[h] = "ACGT", np.array([100, 3, 100, 5])
 
+    start_wrap = case.get("start_wrap")
+
+    def start_text(items):
+        # a FASTQ text of the initial entries whose sequence and score blocks are wrapped
+        # independently of each other; empty reads are left to the text biotite writes itself
+        if start_wrap is None or any(len(s) == 0 for _, (s, _q) in items):
+            return None
+        lines = []
+        for h, (s, q) in items:
+            lines += ["@" + h] + _wrap(s, start_wrap[0]) + ["+"] + _wrap(q, start_wrap[1])
+        if any(len(_wrap(s, start_wrap[0])) != len(_wrap(q, start_wrap[1])) for _, (s, q) in items):
+            o.label("start_seq_and_score_line_counts_differ")
+        return "\n".join(lines) + "\n"
+
     o.label("scores=" + score_type)
     _mapping_history(
         o,
@@ -1250,6 +1276,7 @@ def run_edit_fastq(case):
         lambda items: [(h, (s, [int(x) for x in sc])) for h, (s, sc) in items],
         lambda val: (val[0], [ord(c) - off for c in val[1]]),
         bad_put=bad_put,
+        start_text=start_text,
     )
     if any(c in "@+" for op in case["ops"] if op[0] == "set" for c in _score_line_starts(op[3], cpl)):
         o.label("score_line_starts_with_@_or_+")
